@@ -270,23 +270,48 @@ Proof.
 Qed.
 
 (* ---- the executable property holds of the model on every well-formed input ---- *)
-Lemma prop_C52_of_model i : wf_C52 i = true -> prop_C52 i (run_C52 i) = true.
+Lemma step_prop_model rs q h k : step_prop rs q h k (step_run rs q h k) = true.
 Proof.
-  unfold wf_C52, prop_C52, run_C52. destruct (dec_in i) as [[[[r q] h] k]|] eqn:E; [intros _|discriminate].
-  destruct (negb (rules_ok r)); [apply val_eqb_refl|].
-  assert (Hk : k = 0 \/ k = 1).
-  { unfold dec_in in E. destruct i as [| |[|a [|b [|c [|[kk| |] [|]]]]]]; try discriminate.
-    destruct (dec_rules a); [|discriminate]. destruct (dec_req b); [|discriminate]. destruct (dec_hdrs c); [|discriminate].
-    destruct ((kk =? 0) || (kk =? 1)) eqn:Ek; [|discriminate]. injection E as _ _ _ <-.
-    apply orb_true_iff in Ek. destruct Ek as [Ek|Ek]; apply Z.eqb_eq in Ek; auto. }
-  destruct Hk as [-> | ->]; cbn [Z.eqb].
-  - pose proof (dec_enc_hdrs (cors_handler r q h)) as Hd.
+  unfold step_prop, step_run. destruct (k =? 0) eqn:Ek.
+  - pose proof (dec_enc_hdrs (cors_handler rs q h)) as Hd.
     unfold enc_hdrs in *. rewrite Hd. cbn. apply cors_handler_spec.
-  - destruct (preflight_handler r q) as [h'|] eqn:Ep.
+  - destruct (preflight_handler rs q) as [h'|] eqn:Ep.
     + pose proof (dec_enc_hdrs h') as Hd. unfold enc_hdrs in *. rewrite Hd.
       apply preflight_handler_spec in Ep. destruct Ep as [-> [Hr [r0 [Hf Hs]]]].
       unfold cors_spec_rules. rewrite Hr, Hf, Hs. reflexivity.
     + reflexivity.
+Qed.
+Lemma prop_ops_model t ops : prop_ops t ops (run_ops t ops) = true.
+Proof.
+  revert t. induction ops as [|o rest IH]; intros t; [reflexivity|].
+  destruct o as [c|p q h k]; cbn [run_ops prop_ops].
+  - unfold table_load. destruct (conf_ok c); rewrite val_eqb_refl; apply IH.
+  - destruct (with_product t p q) as [rs q']. rewrite (step_prop_model rs q' h k). apply IH.
+Qed.
+Lemma prop_C52_of_model i : wf_C52 i = true -> prop_C52 i (run_C52 i) = true.
+Proof.
+  unfold wf_C52, prop_C52, run_C52. destruct (dec_in i) as [ops|] eqn:E; [intros _|discriminate].
+  apply prop_ops_model.
+Qed.
+
+(* ---- reload ---- *)
+(* after a successful reload the old table has no influence: the rest of the history behaves as on a module that
+   only ever loaded the new configuration *)
+Lemma reload_replaces t c ops : conf_ok c = true -> run_ops t (OLoad c :: ops) = VL [VZ 1] :: run_ops c ops.
+Proof. intros H. cbn [run_ops]. unfold table_load. rewrite H. reflexivity. Qed.
+Lemma failed_reload_keeps t c ops : conf_ok c = false -> run_ops t (OLoad c :: ops) = VErr 1 :: run_ops t ops.
+Proof. intros H. cbn [run_ops]. unfold table_load. rewrite H. reflexivity. Qed.
+(* a product that the configuration in force does not list is granted nothing, whatever was loaded before *)
+Lemma dropped_product_denied t c p q h ops :
+  conf_ok c = true -> lookup p c = None ->
+  run_ops t (OLoad c :: OReq p q h 0 :: ops)
+  = VL [VZ 1] :: VL [VZ 0; enc_hdrs h] :: run_ops c ops
+  /\ run_ops t (OLoad c :: OReq p q h 1 :: ops) = VL [VZ 1] :: VL [VZ 0; VL []] :: run_ops c ops.
+Proof.
+  intros Hc Hl. rewrite !reload_replaces by exact Hc. cbn [run_ops]. unfold with_product. rewrite Hl.
+  unfold step_run. cbn [Z.eqb].
+  rewrite (denied_unchanged [] _ h) by (left; reflexivity).
+  unfold preflight_handler. cbn [q_has_rules negb]. destruct (negb (is_preflight _)); split; reflexivity.
 Qed.
 
 (* ---- non-vacuity witnesses ---- *)
@@ -310,9 +335,16 @@ Lemma ex_preflight :
   Some (mkHdrs [bs "Origin"%string] [bs "http://a.example"%string] [] [bs "PUT,GET"%string] [] [bs "600"%string] []).
 Proof. vm_compute. reflexivity. Qed.
 
-(* corpus case prevary-two (corpus/C52/vary.case): well-formed, and the model adds the Origin line *)
-Definition w_corpus : val := (VL [(VL [(VL [(VZ 1); (VL [(VL [(VB [104;116;116;112;58;47;47;97])]); (VZ 1); (VL []); (VL []); (VL []); (VL [])])])]); (VL [(VB [71;69;84]); (VL [(VB [104;116;116;112;58;47;47;97])]); (VL []); (VZ 1)]); (VL [(VL [(VB [65;99;99;101;112;116;45;69;110;99;111;100;105;110;103]); (VB [67;111;111;107;105;101])]); (VL []); (VL []); (VL []); (VL []); (VL []); (VL [])]); (VZ 0)]).
-Lemma wf_corpus_example : wf_C52 w_corpus = true /\ kf_C52 w_corpus = 0 /\ prop_C52 w_corpus (run_C52 w_corpus) = true
-  /\ run_C52 w_corpus = VL [VZ 0; VL [vLB [bs "Accept-Encoding"%string; bs "Cookie"%string; bs "Origin"%string]; vLB [bs "http://a"%string];
-                                     vLB [bs "true"%string]; vLB []; vLB []; vLB []; vLB []]].
+Definition w_corpus : val := (VL [(VL [(VZ 0); (VL [(VL [(VB [112;97]); (VL [(VL [(VZ 1); (VL [(VL [(VB [104;116;116;112;58;47;47;97])]); (VZ 1); (VL []); (VL []); (VL []); (VL [])])])])])])]); (VL [(VZ 1); (VB [112;97]); (VL [(VB [71;69;84]); (VL [(VB [104;116;116;112;58;47;47;97])]); (VL []); (VZ 1)]); (VL [(VL [(VB [65;99;99;101;112;116;45;69;110;99;111;100;105;110;103]); (VB [67;111;111;107;105;101])]); (VL []); (VL []); (VL []); (VL []); (VL []); (VL [])]); (VZ 0)])]).
+Definition w_reload : val := (VL [(VL [(VZ 0); (VL [(VL [(VB [112;97]); (VL [(VL [(VZ 1); (VL [(VL [(VB [104;116;116;112;58;47;47;97])]); (VZ 1); (VL []); (VL []); (VL []); (VL [])])])])])])]); (VL [(VZ 1); (VB [112;97]); (VL [(VB [71;69;84]); (VL [(VB [104;116;116;112;58;47;47;97])]); (VL []); (VZ 1)]); (VL [(VL [(VB [65;99;99;101;112;116;45;69;110;99;111;100;105;110;103]); (VB [111;114;105;103;105;110])]); (VL []); (VL []); (VL []); (VL []); (VL []); (VL [])]); (VZ 0)]); (VL [(VZ 0); (VL [(VL [(VB [112;98]); (VL [(VL [(VZ 1); (VL [(VL [(VB [104;116;116;112;58;47;47;97])]); (VZ 1); (VL []); (VL []); (VL []); (VL [])])])])])])]); (VL [(VZ 1); (VB [112;97]); (VL [(VB [71;69;84]); (VL [(VB [104;116;116;112;58;47;47;97])]); (VL []); (VZ 1)]); (VL [(VL [(VB [65;99;99;101;112;116;45;69;110;99;111;100;105;110;103]); (VB [111;114;105;103;105;110])]); (VL []); (VL []); (VL []); (VL []); (VL []); (VL [])]); (VZ 0)]); (VL [(VZ 1); (VB [112;98]); (VL [(VB [71;69;84]); (VL [(VB [104;116;116;112;58;47;47;97])]); (VL []); (VZ 1)]); (VL [(VL [(VB [65;99;99;101;112;116;45;69;110;99;111;100;105;110;103]); (VB [111;114;105;103;105;110])]); (VL []); (VL []); (VL []); (VL []); (VL []); (VL [])]); (VZ 0)])]).
+Lemma wf_corpus_example : wf_C52 w_corpus = true /\ kf_C52 w_corpus = 0 /\ prop_C52 w_corpus (run_C52 w_corpus) = true.
 Proof. vm_compute. repeat split. Qed.
+(* reload history: pa granted, reload without pa, pa no longer granted (header untouched), pb granted *)
+Lemma reload_example :
+  wf_C52 w_reload = true /\
+  match run_C52 w_reload with
+  | VL [l1; VL [_; VL (_ :: acao1 :: _)]; l2; VL [_; VL (_ :: acao2 :: _)]; VL [_; VL (_ :: acao3 :: _)]] =>
+    l1 = VL [VZ 1] /\ l2 = VL [VZ 1] /\ acao1 <> VL [] /\ acao2 = VL [] /\ acao3 = acao1
+  | _ => False
+  end.
+Proof. vm_compute. repeat split; discriminate. Qed.
